@@ -33,6 +33,15 @@ func NewIOReader(reader io.Reader) ro.Observable[[]byte] {
 
 		for {
 			n, err := reader.Read(buf)
+			// io.Reader: the n > 0 bytes are processed before the error is considered
+			// (a Read may return the last bytes together with io.EOF or a failure)
+			if n > 0 || err == nil {
+				// the buffer is reused by the next Read: deliver a copy
+				chunk := make([]byte, n)
+				copy(chunk, buf[:n])
+				destination.NextWithContext(ctx, chunk)
+			}
+
 			if err != nil {
 				if err == io.EOF {
 					destination.CompleteWithContext(ctx)
@@ -41,10 +50,6 @@ func NewIOReader(reader io.Reader) ro.Observable[[]byte] {
 				}
 				break
 			}
-			// the buffer is reused by the next Read: deliver a copy
-			chunk := make([]byte, n)
-			copy(chunk, buf[:n])
-			destination.NextWithContext(ctx, chunk)
 		}
 
 		return func() {
